@@ -1248,9 +1248,9 @@ AddHeadMulti(const Queue<ItemType> & queue, uint32 startIndex, uint32 numNewItem
    const uint32 hisSize = queue.GetNumItems();
    numNewItems = muscleMin(numNewItems, (startIndex < hisSize) ? (hisSize-startIndex) : 0);
 
-   if ((&queue == this)&&(numNewItems > GetNumUnusedItemSlots()))
+   if ((&queue == this)&&(numNewItems > 0))
    {
-      // Avoid re-entrancy problems by making a partial copy of myself to prepend back into myself
+      // Avoid re-entrancy problems (reallocation, and our items' indices shifting with every AddHead()) by making a partial copy of myself to prepend back into myself
       Queue<ItemType> temp;
       status_t ret;
       return temp.AddTailMulti(queue, startIndex, numNewItems).IsOK(ret) ? AddHeadMulti(temp) : ret;  // yes, AddTailMulti() and then AddHeadMulti() is intentional
